@@ -386,7 +386,37 @@ func c14Polygons(c *fw.Ctx, idx int) {
 		py := oy + int64(pi/2)*3*cell
 		var p c14poly
 		nh := 0
-		switch r.Intn(3) {
+		switch r.Intn(4) {
+		case 3:
+			// a sliver: a lattice triangle (or a quadrilateral) whose doubled area
+			// is a small integer while its sides are as long as the cell - area
+			// over squared perimeter down to ~1e-11 - built from a primitive
+			// direction (a,b) and the lattice vector (u,v) with a*v - b*u = 1
+			var a, b int64
+			for {
+				a = cell/2 + int64(r.Intn(int(cell/2)+1))
+				b = int64(r.Intn(int(cell) + 1))
+				if r.Bool() {
+					a, b = b, a
+				}
+				if g, _, _ := egcd(abs64(a), abs64(b)); g == 1 {
+					break
+				}
+			}
+			_, x, y := egcd(a, b) // a*x + b*y = +-1
+			if a*x+b*y < 0 {
+				x, y = -x, -y
+			}
+			u, v := -y, x // a*v - b*u = 1
+			k := int64(r.Range(1, 4))
+			p0 := ipt{px + cell, py + cell}
+			shell := []ipt{p0, {p0.x + a, p0.y + b}, {p0.x + k*u, p0.y + k*v}, p0}
+			if r.Bool() {
+				// quadrilateral: the far corner moved along the long direction
+				shell = []ipt{p0, {p0.x + a, p0.y + b}, {p0.x + a + k*u, p0.y + b + k*v}, {p0.x + k*u, p0.y + k*v}, p0}
+			}
+			p = append(p, shell)
+			c.Count("sliver_shells")
 		case 0: // star-shaped shell, holes in the central box
 			m := r.Range(8, 20)
 			shell := starRing(r, px+cell, py+cell, cell, m)
